@@ -143,7 +143,7 @@ class _Q:
         self.qf = 'forall' not in smt2 and 'exists' not in smt2
 
 
-def prove_contracts(keys, budget_s=10.0, procs=None):
+def prove_contracts(keys, budget_s=10.0, procs=None, recheck=False):
     """verify the named contracts; returns per-contract results"""
     import multiprocessing as mp
     load_contracts()
@@ -177,6 +177,13 @@ def prove_contracts(keys, budget_s=10.0, procs=None):
             results[key].setdefault('sentinels', []).append((name, res))
             if res == 'unsat':
                 results[key]['vacuous'] = results[key].get('vacuous', []) + [name]
+    second = {}
+    if recheck:
+        # thorough tier: every query the primary solver discharged is handed to the two other solvers as well
+        second = smt.recheck([q[3] for q in queries if q[3] is not None and solved[q[2]][0] == 'unsat'], procs=procs)
+    for key, name, inst, q in queries:
+        if inst in second:
+            results[key].setdefault('recheck', []).append((name, second[inst]))
     for key, name, inst, q in queries:
         if q is None:
             results[key]['obligations'].append({'name': name, 'inst': inst, 'status': 'proved', 'solver': 'syntactic',
@@ -223,9 +230,24 @@ def run_property(rep, pid, budget_s=None):
         rep.notes['deductive'] = 'no contract registered for this property'
         return
     budget_s = budget_s or (10.0 if rep.tier == 'quick' else 30.0)
-    res = prove_contracts(keys, budget_s=budget_s)
+    res = prove_contracts(keys, budget_s=budget_s, recheck=(rep.tier == 'thorough'))
     base = baseline()
     failed = []
+    tally = {}
+    for key in keys:
+        for name, second in res[key].get('recheck', []):
+            for solver, verdict in second.items():
+                t = tally.setdefault(solver, {'unsat': 0, 'undecided': 0, 'sat': 0})
+                t[verdict] += 1
+                if verdict == 'sat':
+                    # a second solver claims a counter-model for a query the primary solver proved: never silently ignored
+                    rep.error('solver disagreement on %s: z3 5.1 proved it, %s answers sat' % (name, solver))
+    if tally:
+        rep.notes['independent_recheck'] = {
+            'what': 'every query discharged by z3 5.1 was also given to the other installed solvers (5 s each); '
+                    'undecided = timeout / unknown there, which does not weaken the primary verdict; sat would be '
+                    'reported as a checker error',
+            'by_solver': tally}
     for key in keys:
         c = REGISTRY[key]
         r = res[key]
